@@ -119,6 +119,10 @@ def run_case(case, ctx):
                                ("sub/g_cop_only.c", "// SPDX-FileCopyrightText: 2021 Other Partial\nint g;\n"), ("z_none.md", "last\n")):
                 (mix / name).write_text(text)
         if git:
+            # a submodule (manual .gitmodules, as the repository's own tests do): excluded from whichever directory the tool is run
+            (root / "vendor" / "lib").mkdir(parents=True)
+            (root / "vendor" / "lib" / "lib.c").write_text("int lib;\n")
+            (root / ".gitmodules").write_text('[submodule "vendor/lib"]\n\tpath = vendor/lib\n\turl = https://example.com/lib.git\n')
             trees.git(root, "add", "-A", check=False)
             trees.git(root, "commit", "-q", "-m", "init", check=False)
         os.symlink(str(root), base / "via_link")
